@@ -164,6 +164,12 @@ func New(o Options) *World {
 	for k, v := range o.Viper {
 		viper.Set(k, v)
 	}
+	// the contracts' configured owner (sc.yaml) is a key we do not hold: make the chain owner
+	// (docker.local b0owner_keys.txt) the owner of every contract unless the scenario overrides it
+	ownerKey := FileKey("owner", "b0owner_keys.txt")
+	for _, sc := range []string{"faucetsc", "minersc", "storagesc", "vestingsc", "zcnsc"} {
+		config.SmartContractConfig.Set("smart_contracts."+sc+".owner_id", ownerKey.ID)
+	}
 	for k, v := range o.SC {
 		config.SmartContractConfig.Set(k, v)
 	}
@@ -192,7 +198,7 @@ func New(o Options) *World {
 	w.Chain = c
 
 	// actors
-	w.Owner = FileKey("owner", "b0owner_keys.txt")
+	w.Owner = ownerKey
 	w.add(w.Owner)
 	for i := 1; i <= 4; i++ {
 		a := FileKey(fmt.Sprintf("m%d", i-1), fmt.Sprintf("b0mnode%d_keys.txt", i))
@@ -243,6 +249,15 @@ func New(o Options) *World {
 			for _, a := range w.Clients {
 				is.States[i].State = append(is.States[i].State, state.IDTokens{ID: a.ID, Tokens: o.ClientFund})
 			}
+			hasOwner := false
+			for _, st := range is.States[i].State {
+				if st.ID == w.Owner.ID {
+					hasOwner = true
+				}
+			}
+			if !hasOwner {
+				is.States[i].State = append(is.States[i].State, state.IDTokens{ID: w.Owner.ID, Tokens: o.ClientFund})
+			}
 			ids := make([]string, 0, len(o.ExtraFund))
 			for id := range o.ExtraFund {
 				ids = append(ids, id)
@@ -289,6 +304,11 @@ func (w *World) GenesisNode() *Node {
 // Open creates a new block on top of parent (parent must be closed). hashSalt makes sibling
 // blocks distinct.
 func (w *World) Open(parent *Node, rnd int64, creation common.Timestamp, miner *Actor, seed int64, hashSalt string) *Node {
+	return w.OpenWith(parent, rnd, creation, miner, seed, hashSalt, w.Chain.GetStateCache())
+}
+
+// OpenWith is Open with an explicit global state cache (cache-warmth explorations keep several).
+func (w *World) OpenWith(parent *Node, rnd int64, creation common.Timestamp, miner *Actor, seed int64, hashSalt string, sc *statecache.StateCache) *Node {
 	if !parent.closed {
 		panic("world: parent block not closed")
 	}
@@ -299,7 +319,7 @@ func (w *World) Open(parent *Node, rnd int64, creation common.Timestamp, miner *
 	b.SetPreviousBlock(parent.Block)
 	b.Hash = encryption.Hash(fmt.Sprintf("verif-block:%s:%d:%d:%s:%s", parent.Block.Hash, rnd, creation, miner.ID, hashSalt))
 	st := block.CreateStateWithPreviousBlock(parent.Block, w.Chain.GetStateDB(), rnd)
-	bc := statecache.NewBlockCache(w.Chain.GetStateCache(), statecache.Block{Round: rnd, Hash: b.Hash, PrevHash: parent.Block.Hash})
+	bc := statecache.NewBlockCache(sc, statecache.Block{Round: rnd, Hash: b.Hash, PrevHash: parent.Block.Hash})
 	return &Node{Block: b, State: st, Cache: bc, Parent: parent}
 }
 
